@@ -7,6 +7,19 @@ open CV
 
 /-! ### the strict reading of the options implies the code's reading -/
 
+/-- a pair with a malformed escape never reaches `Get` -/
+theorem getq_ne_garbled (q : List (String × QV)) (k : String) : getq q k ≠ .garbled := by
+  unfold getq
+  cases h : q.find? (fun p => p.1 == k && p.2 != .garbled) with
+  | none => simp
+  | some p =>
+    have := List.find?_some h
+    simp only [Bool.and_eq_true, bne_iff_ne, ne_eq] at this
+    simpa using this.2
+
+@[simp] theorem valid_bne_garbled (v : Val) : (QV.valid v != QV.garbled) = true := by simp
+@[simp] theorem empty_bne_garbled : (QV.empty != QV.garbled) = true := by decide
+
 theorem mode_of_S {q : List (String × QV)} {m : Mode} (h : S.mode q = some m) : M.mode q = m := by
   unfold S.mode at h; unfold M.mode
   split at h <;> simp_all
@@ -50,7 +63,10 @@ theorem expiry_of_S {q : List (String × QV)} {e : Expiry} (h : S.expiry q = som
 
 theorem fromQuery_of_carried {q : List (String × QV)} {md : List (Nat × Nat)} {o : Opts}
     (h : carried q md = some o) : fromQuery q md = some o := by
-  unfold carried assemble at h
+  unfold carried at h
+  split at h
+  · simp at h
+  unfold assemble at h
   split at h
   · rename_i m f sh ua e u og hm hf hsh hua he hu hog
     unfold fromQuery
@@ -70,7 +86,10 @@ theorem fromQuery_none_of_carried_none {r : Req} (hl : lenient r = false)
 
 theorem carried_mode {q : List (String × QV)} {md : List (Nat × Nat)} {o : Opts}
     (h : carried q md = some o) : S.mode q = some o.mode := by
-  unfold carried assemble at h
+  unfold carried at h
+  split at h
+  · simp at h
+  unfold assemble at h
   split at h
   · rename_i m f sh ua e u og hm hf hsh hua he hu hog
     simp at h; subst h; simpa using hm
@@ -155,6 +174,7 @@ theorem localNames_mem (r : Req) (op opl : String) :
   cases h : getq r.query "local" with
   | empty => simp
   | invalid => by_cases h' : op = opl <;> simp [h']
+  | garbled => exact absurd h (getq_ne_garbled _ _)
   | valid v =>
     cases v with
     | bool b => cases b <;> simp
@@ -209,6 +229,7 @@ theorem ok_typeFilter (e : Expect) (r : Req) (hs : Shape.typeFilter "Cluster.Pin
   | invalid =>
     have : filterBad r = true := by simp [filterBad, hf]
     simp only [this, Bool.or_true]; exact conforms_decide'_refuse _
+  | garbled => exact absurd hf (getq_ne_garbled _ _)
   | empty => exact conforms_decide'_respond (by simp [Want.ok])
   | valid v => exact conforms_decide'_respond (by simp [Want.ok])
 
@@ -277,6 +298,7 @@ theorem ok_statusFilter (e : Expect) (r : Req)
   unfold verdict runHandler; rw [← hs]
   cases hf : getq r.query "filter" with
   | invalid => exact conforms_either_refuse _
+  | garbled => exact absurd hf (getq_ne_garbled _ _)
   | empty => exact conforms_decide'_respond (by simp [Want.ok, localNames_mem])
   | valid v =>
     cases v with
